@@ -47,10 +47,15 @@ type seqNames struct {
 	dir   string
 	names []string
 	dup   map[int]bool // hand out the previous name again at these calls (collision path)
+	ext   string       // what the generated names end with (default ".warc"): a generator is free to end its names in ".gz", ".WARC.GZ", ...
 }
 
 func (g *seqNames) NewWarcfileName() (string, string) {
-	n := fmt.Sprintf("w-%04d.warc", len(g.names)+1)
+	ext := g.ext
+	if ext == "" {
+		ext = ".warc"
+	}
+	n := fmt.Sprintf("w-%04d%s", len(g.names)+1, ext)
 	g.names = append(g.names, n)
 	return g.dir, n
 }
@@ -163,7 +168,7 @@ func kWriter(args []string) (string, string) {
 	}
 	defer os.RemoveAll(dir)
 	gowarc.VerifSetNow(time.Date(2021, 2, 3, 4, 5, 6, 0, time.UTC))
-	ng := &seqNames{dir: dir}
+	ng := &seqNames{dir: dir, ext: cfg["next"]}
 	var cbs []cbRec
 	var before []string
 	infoSerial := 0
@@ -238,7 +243,15 @@ func kWriter(args []string) (string, string) {
 				open++
 				n = strings.TrimSuffix(n, ".open")
 			}
-			if comp != strings.HasSuffix(n, ".gz") {
+			// the name on disk is the generated name plus the compression suffix exactly when compressing
+			gen := strings.TrimSuffix(n, suffix)
+			known := false
+			for _, g := range ng.names {
+				if g == gen {
+					known = true
+				}
+			}
+			if (comp && !strings.HasSuffix(n, suffix)) || !known {
 				setViol("writer-name-suffix", fmt.Sprintf("step=%d name=%s compress=%v", step, e.Name(), comp))
 			}
 		}
@@ -782,6 +795,10 @@ func genWriter(r *rng, n int, tier string, emit func(string, ...string)) {
 			infosz = pick(r, []int{200, 1500, 6000, 20000})
 		}
 		cfg := fmt.Sprintf("max=%d;comp=%s;info=%s;rnum=%d;rden=%d;flush=%s;conc=%s;infosz=%d", max, tf(comp), tf(info), rt[0], rt[1], tf(r.chance(1, 4)), tf(r.chance(1, 5)), infosz)
+		if r.chance(1, 8) {
+			// a name generator whose names already end like a compressed file, in either letter case
+			cfg += ";next=" + pick(r, []string{".warc.gz", ".WARC.GZ", ".gz", ".Gz", ".warc.gzip"})
+		}
 		stat("writer-infosz", strconv.Itoa(infosz))
 		stat("writer-cfg", fmt.Sprintf("comp=%s,info=%s,max=%s", tf(comp), tf(info), map[bool]string{true: "0", false: "pos"}[max == 0]))
 		nops := r.rangeInt(1, 12)
